@@ -92,25 +92,33 @@ notify / notifier / maintainer of the wrapped observer), same children. -/
 def restrict (g : Graph) (n : Name) : Graph :=
   .node (.named n g.ob.notify false) g.children
 
+/-- `observer_change_handler`, first half (_has_traits_helpers.py:92-105): remove the
+graph below the old value unless it is Undefined / Uninitialized / None; a
+NotifierNotFound is swallowed (whatever the failed call left behind stays). -/
+def removeOld (h : Heap) (k : HKey) (g : Graph) (old : Val) (H : Hooks) : Res :=
+  match valObjects old with
+  | w :: _ =>
+    let r := addRemove h k true true g w H
+    (match r.err with
+     | some .notifierNotFound => ⟨r.H, none⟩
+     | _ => r)
+  | [] => ⟨H, none⟩
+
+/-- second half (lines 107-115): add the graph below the new value. -/
+def addNew (h : Heap) (k : HKey) (g : Graph) (new : Val) (H : Hooks) : Res :=
+  match valObjects new with
+  | w :: _ => addRemove h k false true g w H
+  | [] => ⟨H, none⟩
+
 /-- A maintainer attached to an instance trait is called with
 `(object, name, old, new)`. -/
 def maintTrait (h : Heap) (mk : MKind) (g : Graph) (k : HKey) (o : Id) (old new : Val) (H : Hooks) : Res :=
   match mk with
   | .trait =>
-    -- observer_change_handler: remove from old (NotifierNotFound swallowed), add to new
-    let r1 : Res := match valObjects old with
-      | w :: _ =>
-        let r := addRemove h k true true g w H
-        (match r.err with
-         | some .notifierNotFound => ⟨r.H, none⟩
-         | _ => r)
-      | [] => ⟨H, none⟩
+    let r1 := removeOld h k g old H
     match r1.err with
     | some e => ⟨r1.H, some e⟩
-    | none =>
-      match valObjects new with
-      | w :: _ => addRemove h k false true g w r1.H
-      | [] => r1
+    | none => addNew h k g new r1.H
   | .added =>
     -- prevent_event = not match_func(event.new, trait); then walk the restricted graph
     if addedMatches h g o new then
